@@ -428,7 +428,10 @@ macro_rules! long_folds {
                     _ => d.f64_slog(1e-3, 1e3) as F,
                 })
                 .collect();
+            // where a non-fused iterator reports its first None (after which it would yield again): the fold ends there
+            let cut = if d.bool() { (d.int(0, 5) as usize).min(len) } else { ((d.int(0, (1 << 20) - 1) as usize) * (len + 1)) >> 20 };
             d.note("list length, base values", &(len, base.clone()));
+            d.note("position of the first None of the gapped iterators", &cut);
             let el = |j: usize, k: usize| -> F {
                 let f: F = [1.0, -1.0, 0.5, 1.0, -0.25, 2.0, 1.0][(j / nb) % 7];
                 base[(j % nb) * 4 + k] * f
@@ -458,6 +461,20 @@ macro_rules! long_folds {
                     same!(fold, f3, concat!($sig, "-sum-from_fn"), "{} Sum over a from_fn iterator of {} values", stringify!($T), len);
                     same!(fold, f4, concat!($sig, "-sum-chained"), "{} Sum over two chained slices of {} references", stringify!($T), len);
                     same!(fold, f5, concat!($sig, "-sum-take_while"), "{} Sum over a take_while iterator of {} values", stringify!($T), len);
+                    // iterators that are not fused: None at position `cut`, items again afterwards. The fold - and so the sum -
+                    // ends at the first None
+                    let mut upto = <$T>::zero();
+                    for x in &list[..cut] {
+                        upto = upto + *x;
+                    }
+                    let (mut k, mut gap) = (0usize, false);
+                    let g1: $T = std::iter::from_fn(|| { if k == cut && !gap { gap = true; return None; } k += 1; list.get(k - 1).cloned() }).sum();
+                    let (mut k, mut gap) = (0usize, false);
+                    let g2: $T = std::iter::from_fn(|| { if k == cut && !gap { gap = true; return None; } k += 1; list.get(k - 1) }).sum();
+                    let g3: $T = list.iter().scan(0usize, |i, x| { *i += 1; if *i - 1 == cut { None } else { Some(x) } }).sum();
+                    same!(upto, g1, concat!($sig, "-sum-gapped-values"), "{} Sum over a non-fused iterator of values whose first None comes after {} of {} items", stringify!($T), cut, len);
+                    same!(upto, g2, concat!($sig, "-sum-gapped-refs"), "{} Sum over a non-fused iterator of references whose first None comes after {} of {} items", stringify!($T), cut, len);
+                    same!(upto, g3, concat!($sig, "-sum-gapped-scan"), "{} Sum over a scan() iterator whose first None comes after {} of {} items", stringify!($T), cut, len);
                 }};
             }
             sums!(Vector1<F>, |j| Vector1::new(el(j, 0)), "long-vector1");
@@ -493,6 +510,18 @@ macro_rules! long_folds {
                     same!(fold, f2, concat!($sig, "-product-unsized-refs"), "{} Product over a filtered iterator of {} references", stringify!($T), len);
                     same!(fold, f3, concat!($sig, "-product-from_fn"), "{} Product over a from_fn iterator of {} values", stringify!($T), len);
                     same!(fold, f4, concat!($sig, "-product-chained"), "{} Product over two chained slices of {} references", stringify!($T), len);
+                    let mut upto = <$T>::one();
+                    for x in &list[..cut] {
+                        upto = upto * *x;
+                    }
+                    let (mut k, mut gap) = (0usize, false);
+                    let g1: $T = std::iter::from_fn(|| { if k == cut && !gap { gap = true; return None; } k += 1; list.get(k - 1).cloned() }).product();
+                    let (mut k, mut gap) = (0usize, false);
+                    let g2: $T = std::iter::from_fn(|| { if k == cut && !gap { gap = true; return None; } k += 1; list.get(k - 1) }).product();
+                    let g3: $T = list.iter().scan(0usize, |i, x| { *i += 1; if *i - 1 == cut { None } else { Some(x) } }).product();
+                    same!(upto, g1, concat!($sig, "-product-gapped-values"), "{} Product over a non-fused iterator of values whose first None comes after {} of {} items", stringify!($T), cut, len);
+                    same!(upto, g2, concat!($sig, "-product-gapped-refs"), "{} Product over a non-fused iterator of references whose first None comes after {} of {} items", stringify!($T), cut, len);
+                    same!(upto, g3, concat!($sig, "-product-gapped-scan"), "{} Product over a scan() iterator whose first None comes after {} of {} items", stringify!($T), cut, len);
                 }};
             }
             let ang = |j: usize| Rad(angs[j % nb] * [1.0 as F, -0.5, 0.25][(j / nb) % 3]);
